@@ -228,27 +228,40 @@ theorem C18_regress_uncaught_trigger_function (lg : String) (s : Loop) (e : Nat)
   simp [serve, contain, callAction]
 
 /-- **Load isolation**: after a load pass over any list of planned files, exactly the files that did not raise
-are registered, in order – each of them is loaded no matter how many others failed – and every failing file has
-exactly one record on its own logger. -/
+are registered, in order – each of them is loaded no matter how many others failed – every failing file has
+exactly one record on its own logger, and NO function of a file that failed to load is run by the clean-up (the full
+statement finding C18-F10 blocked). -/
 theorem C18_load_isolated (files : List SrcFile) (s : Loaded) :
     (loadAll files s).contexts = s.contexts ++ specContexts files ∧
     ((loadAll files s).log.filter (·.scriptTb)).map (·.logger)
-      = (s.log.filter (·.scriptTb)).map (·.logger) ++ (failing files).map (·.name) := by
+      = (s.log.filter (·.scriptTb)).map (·.logger) ++ (failing files).map (·.name) ∧
+    (loadAll files s).ran = s.ran := by
   induction files generalizing s with
-  | nil => simp [loadAll, specContexts, failing]
+  | nil => simp [loadAllC, specContexts, failing]
   | cons f r ih =>
     cases hf : f.loads with
     | ok =>
       have := ih { s with contexts := s.contexts ++ [f.name] }
-      simp only [loadAll, hf]
-      rw [this.1, this.2]
+      simp only [loadAllC, hf]
+      rw [this.1, this.2.1, this.2.2]
       simp [specContexts, failing, hf]
     | raise e =>
-      have := ih { s with log := s.log ++ [{ logger := f.name, exc := e, scriptTb := true },
-                                         { logger := "pyscript", exc := e, scriptTb := false }] }
-      simp only [loadAll, hf]
-      rw [this.1, this.2]
-      simp [specContexts, failing, hf]
+      have := ih { s with ran := s.ran ++ stopUnstarted true f,
+                          log := s.log ++ [{ logger := f.name, exc := e, scriptTb := true },
+                                           { logger := "pyscript", exc := e, scriptTb := false }] }
+      simp only [loadAllC, hf]
+      rw [this.1, this.2.1, this.2.2]
+      simp [specContexts, failing, hf, stopUnstarted]
+
+/-- **Regression witness for the repaired finding C18-F10.**  Before the repair the clean-up after a failed load ran the
+`@time_trigger("shutdown")` functions the file had defined before it raised (legacy subsystem) – code of a file that
+"failed to load" was executed. -/
+theorem C18_regress_failed_load_runs_shutdown :
+    (loadAllC false [⟨"file.a", .ok, 0⟩, ⟨"file.bad", .raise 1, 1⟩, ⟨"file.good", .ok, 0⟩] ⟨[], [], []⟩).ran = ["file.bad"] ∧
+    (loadAll [⟨"file.a", .ok, 0⟩, ⟨"file.bad", .raise 1, 1⟩, ⟨"file.good", .ok, 0⟩] ⟨[], [], []⟩).ran = [] ∧
+    (loadAllC false [⟨"file.a", .ok, 0⟩, ⟨"file.bad", .raise 1, 1⟩, ⟨"file.good", .ok, 0⟩] ⟨[], [], []⟩).contexts
+      = ["file.a", "file.good"] := by
+  refine ⟨?_, ?_, ?_⟩ <;> decide
 
 /-- non-vacuity: a chain of depth 3 across two files without adjacent equal activations -/
 example : NoAdj [⟨"a.py", "f", 1, "a.py", "file.a", [4], 5, false, 1⟩, ⟨"m.py", "g", 1, "a.py", "file.a", [], 9, true, 2⟩,
